@@ -86,6 +86,58 @@ def run(ctx):
                 if f and len(s['p']) == 3:
                     restores.setdefault(f, []).append(i)
         # Drop+assign is also expressed as a Drop terminator followed by Assign; handled above
+    # what was moved out must come back as it was: while it is out, nothing may add to / remove from it
+    for bb, t in c.calls():
+        n = norm_path(callee_name(t) or '')
+        if n not in ('std::mem::take', 'std::mem::replace'):
+            continue
+        fld = None
+        for a in t['args']:
+            pl = operand_place(a)
+            if pl is not None and len(pl) == 1 and pl[0] in refs:
+                fld = refs[pl[0]]
+        if fld is None or not t.get('dest'):
+            continue
+        holders = {t['dest'][0]}
+        changed = True
+        while changed:
+            changed = False
+            for b in body['blocks']:
+                for st in b['stmts']:
+                    if st.get('s') == 'Assign' and len(st['p']) == 1 and st['p'][0] not in holders:
+                        r = st['r']
+                        src = None
+                        if r['rv'] == 'Ref':
+                            src = r['p']
+                        elif r['rv'] in ('Use', 'Cast'):
+                            src = operand_place(r['a'])
+                        if src is not None and src[0] in holders and all(x == '*' for x in src[1:]):
+                            holders.add(st['p'][0])
+                            changed = True
+        ALLOWED = {'iter_mut', 'iter', 'len', 'is_empty', 'deref', 'deref_mut', 'drop', 'into_iter', 'borrow', 'borrow_mut', 'as_ref', 'as_mut'}
+        offenders = []
+        for bb2, t2 in c.calls():
+            if bb2 == bb or body['blocks'][bb2].get('cleanup'):
+                continue
+            uses = False
+            for a in t2.get('args') or []:
+                pl = operand_place(a)
+                if pl is not None and pl[0] in holders and all(x == '*' for x in pl[1:]):
+                    uses = True
+            if not uses:
+                continue
+            n2 = norm_path(callee_name(t2) or '')
+            last = n2.split('::')[-1]
+            if last not in ALLOWED and not n2.startswith('std::mem::'):
+                offenders.append((bb2, n2))
+        key = 'self.%s/unchanged-while-out' % fld
+        if offenders:
+            for bb2, n2 in offenders:
+                res.bad('%s/%s' % (key, n2.split('::')[-1]), 'emit_wasm moves `self.%s` out and calls %s on it before putting it back: the '
+                        'field that comes back is not the one that was taken (a later emit sees a different module)' % (fld, n2),
+                        where(body, bb2))
+        else:
+            res.ok(key, {'field': fld, 'calls_while_out': 'iteration only'})
     if not taken:
         res.ok('no-field-moved', {'emit_wasm': 'moves nothing out of the module'}, nontrivial=False)
     for bb, f, how in taken:
